@@ -63,7 +63,8 @@ Definition spec_body_fields : list (string * string * string * string) :=
    ("MrOwnerConfig", "280", "328", "bytes")].
 Definition spec_body_rtmr_loop : string * string * string * string := ("#loop", "4", "48", "328").
 Definition spec_body_reportdata : string * string * string * string := ("ReportData", "520", "584", "bytes").
-Definition spec_body_parse_table := (spec_body_fields ++ [spec_body_reportdata; spec_body_rtmr_loop])%list.
+(* the translator lists the rows of a fixed-layout table by start offset, whatever the statement order *)
+Definition spec_body_parse_table := (spec_body_fields ++ [spec_body_rtmr_loop; spec_body_reportdata])%list.
 Definition spec_body_ser_table := (spec_body_fields ++ [spec_body_rtmr_loop; spec_body_reportdata])%list.
 
 Definition spec_body_checks : list (string * string * string) :=
